@@ -166,7 +166,7 @@ def ref_grads(sc, rows, with_Z=True, mean=True):
     return out
 
 
-def cmp_grads(state, got, ref, what):
+def cmp_grads(state, got, ref, what, rtol=1e-6):
     nets = state.networks
     require(isinstance(got, (list, tuple)) and len(got) == len(nets), what + ":structure", f"{what}: expected a list of {len(nets)} gradient vectors")
     for i, net in enumerate(nets):
@@ -177,7 +177,7 @@ def cmp_grads(state, got, ref, what):
             g = torch.full_like(want, float(g))
         g = g.double().reshape(-1)
         require(g.shape == want.shape, what + ":length", f"{what}[{net}]: length {tuple(g.shape)} != num_pars {tuple(want.shape)}")
-        tol = 1e-6 * (1 + float(want.abs().max()))
+        tol = rtol * (1 + float(want.abs().max()))
         bad = (g - want).abs() > tol
         if bool(bad.any()):
             # which parameter block is wrong?
@@ -260,6 +260,13 @@ def check_round(case, state):
     cmp_grads(state, pp, ref_grads(sc, rows, with_Z=False), "positive_phase_gradients")
     gs = state.gradient(samples.clone(), **G(bases))
     cmp_grads(state, gs, ref_grads(sc, rows, with_Z=False, mean=False), "gradient")
+    # precision tier: the reference NLL with hidden units in product form (torch softplus, see refmodel.library_precision) follows the
+    # library's documented arithmetic (value: thresholded softplus, derivative: exact sigmoid), so its autograd gradient must be met to ~2e-10 of the gradient's scale
+    prec = 2e-10 + 50 * 2.2e-16 / min(probs)       # 2e-10 of the gradient's scale, plus the rounding any implementation incurs on the worst-conditioned admitted row
+    with R.library_precision():
+        cmp_grads(state, full, ref_grads(sc, rows, with_Z=True), "precision:compute_exact_gradients", rtol=prec)
+        cmp_grads(state, pp, ref_grads(sc, rows, with_Z=False), "precision:positive_phase_gradients", rtol=prec)
+        cmp_grads(state, gs, ref_grads(sc, rows, with_Z=False, mean=False), "precision:gradient", rtol=prec)
 
     # Oracle B: per-sample 1-D form, permutation, split
     acc = None
